@@ -19,11 +19,13 @@ var c43 struct {
 	blobRO, blobOpen bool
 	order            []string
 	failures         int
+	failed           map[string]bool
 }
 
 func c43fails(what string) bool {
 	if c43.failures < vrt.Param("MAXFAIL") && vrt.Bool("fails:"+what) {
 		c43.failures++
+		c43.failed[what] = true
 		return true
 	}
 	return false
@@ -62,6 +64,7 @@ var c43modes = [...]mode.Mode{mode.ReadWrite, mode.ReadOnly, mode.Degraded, mode
 // ends with a successful switch every component is in the reported mode.
 func VerifC43ModeChanges() {
 	c43.metaMode, c43.wcMode, c43.blobRO, c43.blobOpen, c43.failures = mode.ReadWrite, mode.ReadWrite, false, true, 0
+	c43.failed = map[string]bool{}
 	meta.VerifHookSetMode = func(_ *meta.DB, m mode.Mode) error {
 		if c43fails("metabase") {
 			return errors.New("metabase reopen failed")
@@ -103,7 +106,16 @@ func VerifC43ModeChanges() {
 		}
 		if target == mode.ReadWrite {
 			if failedBefore {
-				vrt.Assert(!c43.blobRO && c43.blobOpen && c43.metaMode == mode.ReadWrite, "returning to read-write after a failed switch restores full service")
+				which := ""
+				for _, n := range []string{"blobstor", "metabase", "writecache"} {
+					if c43.failed[n] {
+						if which != "" {
+							which += ", "
+						}
+						which += n
+					}
+				}
+				vrt.Assert(!c43.blobRO && c43.blobOpen && c43.metaMode == mode.ReadWrite, "returning to read-write after a failed switch restores full service (components that had failed: "+which+")")
 			} else {
 				vrt.Assert(!c43.blobRO && c43.blobOpen && c43.metaMode == mode.ReadWrite, "returning to read-write restores full service")
 			}
